@@ -120,7 +120,12 @@ class AsyncioTransportStreamSocketAdapter(AsyncStreamTransport):
         await self.__protocol.writer_drain()
 
     async def send_all_from_iterable(self, iterable_of_data: Iterable[bytes | bytearray | memoryview]) -> None:
-        self.__transport.writelines(iterable_of_data)
+        # Empty chunks carry no data, and asyncio's writelines() neither expects an empty list of buffers
+        # nor drops an empty buffer left at the end of its queue.
+        chunks = [data for data in iterable_of_data if len(data)]
+        del iterable_of_data
+        if chunks:
+            self.__transport.writelines(chunks)
         await self.__protocol.writer_drain()
 
     async def send_eof(self) -> None:
